@@ -407,6 +407,26 @@ def do_evolution(ctx, rng):
                       '|result - expm(delta A) v0| = %g (delta=%r, N=%d, dim=%d)' % (err, delta, N, dim), case)
     if np.real(delta) == 0 and abs(np.linalg.norm(v) - (1.0 if do_norm else np.linalg.norm(p['v0']))) > 1e-7 * max(1, np.linalg.norm(p['v0'])):
         ctx.violation('lanczos-evolution:norm-not-preserved', '|psi| %r' % np.linalg.norm(v), case)
+    # the same solver object again with another step (run(delta) takes the step as argument): independent of the first call
+    if rng.random() < 0.5 and err <= tol:
+        solver = LanczosEvolution(RecOp(p['A']), p['psi0'].copy(), dict(opts))
+        try:
+            solver.run(delta, normalize=normalize)
+            delta2 = delta * float(rng.choice([1.0, 0.5, -1.0]))
+            psi2, N2 = solver.run(delta2, normalize=normalize)
+        except Exception as e:
+            ctx.violation('lanczos-evolution-second-run:raises-%s' % type(e).__name__, traceback.format_exc()[-600:], case)
+            return p, opts, 'evolution'
+        ctx.count('evolution.second_runs')
+        ref2 = scipy.linalg.expm(delta2 * p['d']) @ p['v0']
+        do_norm2 = normalize if normalize is not None else (np.real(delta2) == 0.0)
+        if do_norm2:
+            ref2 = ref2 / np.linalg.norm(ref2)
+        err2 = np.linalg.norm(psi2.to_ndarray() - ref2)
+        if err2 > 10 * tol:
+            ctx.violation('lanczos-evolution-second-run:wrong:reortho=%s' % opts['reortho'],
+                          'second run() of one LanczosEvolution object: |result - expm(delta A) v0| = %g (N=%d, first run N=%d, N_cache %r)' %
+                          (err2, N2, N, opts.get('N_cache')), case)
     return p, opts, 'evolution'
 
 
